@@ -10,6 +10,7 @@ import (
 	"os"
 	"os/exec"
 	"path/filepath"
+	"regexp"
 	"runtime/debug"
 	"sort"
 	"strings"
@@ -61,9 +62,26 @@ func (cr *caseRun) harness(what string, detail string) {
 	}
 }
 
+func randomBatches(tier string) int {
+	if tier == "thorough" {
+		return 120
+	}
+	return 10
+}
+
+// caseKind: batches 0..randomBatches-1 draw from the grammar with one forced production each,
+// the batches after them are the forced special cases of nestvis.go.
+func caseKind(tier string, batch, i int) (must string, special bool) {
+	if n := randomBatches(tier); batch >= n {
+		sp := specialCases(tier)
+		return sp[(batch-n)%len(sp)], true
+	}
+	return mustList[(batch+i)%len(mustList)], false
+}
+
 func runCase(w *vrt.W, i int, gombok string) {
 	r := w.Rand(i)
-	must := mustList[(w.Batch+i)%len(mustList)]
+	must, special := caseKind(w.Tier, w.Batch, i)
 	w.Begin(i, "gombok/derive")
 	defer w.Done(i)
 	var c *Case
@@ -74,7 +92,11 @@ func runCase(w *vrt.W, i int, gombok string) {
 				w.Note(fmt.Sprintf("batch %d case %d: grammar panicked: %v", w.Batch, i, rec))
 			}
 		}()
-		c = genCase(r, must)
+		if special {
+			c = genSpecial(r, must)
+		} else {
+			c = genCase(r, must)
+		}
 	}()
 	if c == nil {
 		return
@@ -161,19 +183,66 @@ func (cr *caseRun) run(gombok string) {
 		cr.harness("go build timed out (wall clock, not a verdict)", res.out)
 		return
 	}
+	refusedPkg := map[string]bool{}
 	if res.exit != 0 {
 		es := parseCompileErrors(res.out)
+		// a package whose generated file only references instances gombok was expected to leave to the
+		// user (UndeclaredOK) has been refused, not mis-generated
+		for _, p := range c.Pkgs {
+			if !p.refusable() {
+				continue
+			}
+			n, other := 0, 0
+			for _, e := range es {
+				if !strings.HasPrefix(e.file, p.Name+"/") {
+					continue
+				}
+				name, isUndef := strings.CutPrefix(e.msg, "undefined: ")
+				if isUndef && strings.HasSuffix(e.file, "_derive_generated.go") && p.mayBeUndeclared(strings.TrimSpace(name)) {
+					n++
+				} else {
+					other++
+				}
+			}
+			if n > 0 && other == 0 {
+				refusedPkg[p.Name] = true
+				w.Add("gombok.refused_packages", 1)
+				w.Add("gombok.refused_by_undeclared_reference", 1)
+				w.Note(fmt.Sprintf("batch %d case %d: gombok left the nested instance of package %s to the user (reference to an undeclared instance): refusal, not judged", w.Batch, i, p.Name))
+				for _, x := range p.Derives {
+					for _, h := range nestVisHits(x) {
+						w.Add(h+".refused", 1)
+						w.Add(h+".observed", 1)
+					}
+				}
+			}
+		}
 		for _, e := range es {
+			if refusedPkg[strings.SplitN(e.file, "/", 2)[0]] {
+				continue
+			}
 			if strings.HasSuffix(e.file, "_derive_generated.go") {
 				name, tc := enclosingInstance(cr.files[e.file], e.line)
-				w.Violation(i, "gombok/derive/compile/"+tc+"/"+errClass(e.msg),
+				key := "gombok/derive/compile/" + tc + "/" + errClass(e.msg)
+				if cls := cr.importedGenericParamError(e); cls != "" {
+					key = "gombok/derive/compile/" + cls
+				}
+				w.Violation(i, key,
 					fmt.Sprintf("generated instance %s does not compile: %s:%d: %s\n%s", name, e.file, e.line, e.msg, trunc(res.out, 2000)),
 					cr.witness(map[string]any{"compiler_output": trunc(res.out, 8000), "instance": name}))
 				return
 			}
 		}
-		cr.harness("scratch package does not compile outside the generated derive file", res.out)
-		return
+		if len(refusedPkg) == 0 || len(es) == 0 {
+			cr.harness("scratch package does not compile outside the generated derive file", res.out)
+			return
+		}
+		for _, e := range es {
+			if !refusedPkg[strings.SplitN(e.file, "/", 2)[0]] {
+				cr.harness("scratch package does not compile outside the generated derive file", res.out)
+				return
+			}
+		}
 	}
 	// 3. law tests for the instances that were emitted
 	type built struct {
@@ -183,7 +252,7 @@ func (cr *caseRun) run(gombok string) {
 	}
 	var bs []built
 	for _, p := range c.Pkgs {
-		if len(p.Derives) == 0 {
+		if len(p.Derives) == 0 || refusedPkg[p.Name] {
 			continue
 		}
 		have := generatedInstances(cr.files[p.Name+"/"+p.Name+"_derive_generated.go"])
@@ -377,6 +446,10 @@ func (cr *caseRun) runLaws(p *Pkg, bin string, tgs []lawTarget) bool {
 		if x.Decl.SelfRec {
 			w.Add("recursive_type_derivations", 1)
 		}
+		for _, h := range nestVisHits(x) {
+			w.Add(h, 1)
+			w.Add(h+".observed", 1)
+		}
 		if x.Recursive && !x.Implicit {
 			w.Add("recursive_true_directives", 1)
 		}
@@ -486,10 +559,7 @@ func main() {
 	vrt.Main(vrt.Config{
 		Property: "C08",
 		Batches: func(tier string) int {
-			if tier == "thorough" {
-				return 120
-			}
-			return 10
+			return randomBatches(tier) + len(specialCases(tier))
 		},
 		Cases: func(tier string, b int) int { return 1 },
 		Run: func(w *vrt.W) {
@@ -511,11 +581,12 @@ func main() {
 		},
 		CaseCPUBudget: 600,
 		WorkerProcs:   4,
-		Rule: "case = scratch Go module (1-2 packages) drawn from a grammar: a type's package `tp` (an @fp.Value struct of basic fields with hand-written Eq/Ord/Hashable/Monoid instances as var or func, a plain public struct, an @fp.Value struct with instances derived in tp, named basic and slice types) and a working package `wp` with 2-4 productions out of {@fp.Value struct, plain struct with private fields, named non-struct type + holder, generic struct with used and unused type parameters + holder of an instantiation, pointer-recursive struct, mutually recursive pair, 20/21/22/23/30-field struct}; field types from basic kinds, []byte, slices, fp.Seq, fp.Option, pointers, Go maps, fp.Tuple2, hlist, nested/imported named types, type parameters (nesting depth <= 3); @fp.Derive directives for random subsets of Eq/Ord/Hashable/Monoid/Clone/Show with and without recursive=true, directives for imported types, local overriding instances (case-insensitive EqString/OrdString/HashableString, reversed OrdInt/MonoidString, MonoidInt = sum|product, EqSeq(eqT, ordT) with @fp.ImportGiven, a local instance for an imported type). One production per batch is forced so that every run sees each kind. gombok built from the working tree generates the code; `go build` must accept every generated instance; a law test written from the SPEC (same package; reference = documented resolution order local -> type's package -> derive package, field-wise) runs on a pool of 4 base values + 2 near-equal values per field position (differ in exactly that field). distinct_nontrivial = distinct (typeclass, shape) pairs of derivations whose law test ran to completion, shape = multiset of field kinds x arity x flags (recursive=true, implicit, @fp.Value, imported, generic used/total, recursive type).",
+		Rule: "case = scratch Go module (1-2 packages) drawn from a grammar: a type's package `tp` (an @fp.Value struct of basic fields with hand-written Eq/Ord/Hashable/Monoid instances as var or func, a plain public struct, an @fp.Value struct with instances derived in tp, named basic and slice types) and a working package `wp` with 2-4 productions out of {@fp.Value struct, plain struct with private fields, named non-struct type + holder, generic struct with used and unused type parameters + holder of an instantiation, pointer-recursive struct, mutually recursive pair, 20/21/22/23/30-field struct}; field types from basic kinds, []byte, slices, fp.Seq, fp.Option, pointers, Go maps, fp.Tuple2, hlist, nested/imported named types, type parameters (nesting depth <= 3); @fp.Derive directives for random subsets of Eq/Ord/Hashable/Monoid/Clone/Show with and without recursive=true, directives for imported types, local overriding instances (case-insensitive EqString/OrdString/HashableString, reversed OrdInt/MonoidString, MonoidInt = sum|product, EqSeq(eqT, ordT) with @fp.ImportGiven, a local instance for an imported type). One production per batch is forced so that every run sees each kind. After the random batches come forced cases (one batch each; thorough: four draws of each): nestvis:<mix> for mix in {all-exported, all-unexported, mixed} = a working package with nested PLAIN structs of that visibility mix holding a slice, a pointer, []byte (and a Go map in a second one) used directly and inside a slice/Option/pointer/Seq/map by outer structs that derive all six typeclasses (four with the map) under a plain directive (nested struct has its own directives) and under recursive=true (nested instance expected on demand), plus a package wq whose outer struct derives Clone while NOTHING is declared for the nested struct; tpgeneric = a generic struct declared in tp with its instance functions derived in tp, instantiated as a field type of two holders in wp. gombok built from the working tree generates the code; `go build` must accept every generated instance; a law test written from the SPEC (same package; reference = documented resolution order local -> type's package -> derive package, field-wise) runs on a pool of 4 base values + 2 near-equal values per field position (differ in exactly that field). distinct_nontrivial = distinct (typeclass, shape) pairs of derivations whose law test ran to completion, shape = multiset of field kinds x arity x flags (recursive=true, implicit, @fp.Value, imported, generic used/total, recursive type).",
 		Assumptions: []string{
 			"struct shapes come from the grammar above; shapes outside it (arrays, channels, unnamed interfaces, named types over library structs such as `type T fp.Option[int]`, recursion not through a pointer) are not covered",
 			"values are a constructed pool per type (bases, near-equal variants at every field position, nil vs empty, equal-but-not-identical pointers), not all values; floats are exact dyadic non-negative numbers, no NaN",
-			"gombok refusing or crashing on a package emits no instance and is counted, not judged; Show is only required to be total, deterministic and equal on equal values",
+			"gombok refusing or crashing on a package emits no instance and is counted, not judged; gombok's other way of refusing - a generated file whose only compile errors are references to an undeclared instance of a nested type nothing was declared for (package wq) - is counted as a refusal too; Show is only required to be total, deterministic and equal on equal values",
+			"Clone is judged by what the copy shares with the original, whichever instance gombok picked for a nested type (derived on demand, declared, or the catch-all clone.Given); sharing storage that sits inside a nested plain struct is keyed by visibility mix and regime (shared-storage/nested-plain-struct/<mix>/<plain|recursive|plain-without-instance>)",
 			"the order of instance parameters of a generic instance function is not prescribed; only their multiset is checked; a type parameter counts as used for a typeclass when an instance for it is summoned (under Monoid an occurrence only inside a slice/Seq/map element is not)",
 			"hand-written instances of the scratch packages are lawful by construction",
 		},
@@ -523,10 +594,21 @@ func main() {
 			f := map[string]int64{"derivations.Eq": 3, "derivations.Ord": 3, "derivations.Hashable": 3, "derivations.Monoid": 3, "derivations.Clone": 3, "derivations.Show": 3,
 				"pairs_evaluated": 5000, "triples_evaluated": 1000, "overriding_instance_derivations": 1, "recursive_type_derivations": 1, "generic_derivations": 1,
 				"law.Eq.near_equal_pairs": 100, "cases.conclusive": 8,
-				"resolution.local-override": 1, "resolution.type-package": 1, "derivations_over_21_fields": 1}
+				"resolution.local-override": 1, "resolution.type-package": 1, "derivations_over_21_fields": 1,
+				"implicit_derivations_from_recursive_true": 1, "law.Clone.fields_with_storage_in_nested_plain_struct": 30}
 			if tier == "thorough" {
 				f["cases.conclusive"] = 110
-				f["implicit_derivations_from_recursive_true"] = 1
+			}
+			// nested plain structs: every visibility mix x typeclass x {plain, recursive=true} was judged by a
+			// law test of the outer type; the Clone-without-instance regime was at least observed
+			// (judged, or refused by gombok)
+			for _, mix := range visMixes {
+				for t := Eq; t < nTC; t++ {
+					for _, regime := range []string{"plain", "recursive"} {
+						f["nestvis."+mix+"."+tcName[t]+"."+regime] = 1
+					}
+				}
+				f["nestvis."+mix+".Clone.plain-without-instance.observed"] = 1
 			}
 			return f
 		},
@@ -548,8 +630,51 @@ func main() {
 			cov["derivations_per_typeclass"] = per
 			cov["derivations_by_strongest_resolution_rule"] = res
 			cov["shapes_gombok_refused"] = m.Counters["gombok.refused_packages"] + m.Counters["instances_not_emitted"]
+			nv := map[string]int64{}
+			for k, v := range m.Counters {
+				if strings.HasPrefix(k, "nestvis.") {
+					nv[strings.TrimPrefix(k, "nestvis.")] = v
+				}
+			}
+			cov["nested_plain_struct_derivations_by_mix_typeclass_regime"] = nv
+			cov["special_cases"] = specialCases(tier)
 			cov["gombok_built_from"] = repoDir()
 			sort.Strings(m.Notes)
 		},
 	})
+}
+
+var reImportedGeneric = regexp.MustCompile(`\b(\w+)\.(?:Eq|Ord|Hashable|Monoid|Clone|Show)(\w+)\[([A-Z]\w*(?:, ?[A-Z]\w*)*)\]\(`)
+
+// importedGenericParamError recognises ONE input class among the "undefined" compile errors: the
+// generated code instantiates the instance function of a generic type of an imported package with
+// that function's own type parameter NAMES (tp.EqBox[A](...)) instead of the type arguments.
+func (cr *caseRun) importedGenericParamError(e compileErr) string {
+	name, ok := strings.CutPrefix(e.msg, "undefined: ")
+	if !ok {
+		return ""
+	}
+	name = strings.TrimSpace(name)
+	lines := strings.Split(cr.files[e.file], "\n")
+	if e.line < 1 || e.line > len(lines) {
+		return ""
+	}
+	for _, m := range reImportedGeneric.FindAllStringSubmatch(lines[e.line-1], -1) {
+		for _, p := range cr.c.Pkgs {
+			if p.Name != m[1] {
+				continue
+			}
+			for _, d := range p.Decls {
+				if len(d.Params) == 0 || !strings.HasSuffix(m[2], d.Name) {
+					continue
+				}
+				for _, prm := range d.Params {
+					if prm == name {
+						return "type-package-generic-instance/undefined-type-parameter"
+					}
+				}
+			}
+		}
+	}
+	return ""
 }
